@@ -478,6 +478,34 @@ impl std::io::Write for CountingWriter {
     }
 }
 
+/// Verification hooks, compiled only with the `verif` feature (off by default).
+///
+/// `point(tag)` marks a place between two lock scopes of a concurrent data structure. With no
+/// callback installed it does nothing; a schedule explorer installs a callback that parks the
+/// calling thread until it is released, which turns the real code into a set of threads whose
+/// interleavings at these points can be enumerated. No hook changes behaviour.
+#[cfg(feature = "verif")]
+pub mod verif {
+    use std::sync::{Arc, RwLock};
+
+    type Callback = Arc<dyn Fn(&'static str) + Send + Sync>;
+
+    static CALLBACK: RwLock<Option<Callback>> = RwLock::new(None);
+
+    /// Installs (or, with `None`, removes) the process-global yield callback.
+    pub fn install(callback: Option<Callback>) {
+        *CALLBACK.write().unwrap_or_else(|e| e.into_inner()) = callback;
+    }
+
+    /// A yield point. Calls the installed callback, if any, outside of the registry lock.
+    pub fn point(tag: &'static str) {
+        let callback = CALLBACK.read().unwrap_or_else(|e| e.into_inner()).clone();
+        if let Some(callback) = callback {
+            callback(tag);
+        }
+    }
+}
+
 #[cfg(test)]
 mod tests {
     use super::*;
